@@ -246,11 +246,32 @@ func (c *client) open(id, kind, tag, backend string) *opRec {
 // retire decides a finished operation now (the connection is idle) and frees its ID.
 func (c *client) retire(op *opRec, quiescent bool) []finding {
 	c.mu.Lock()
-	defer c.mu.Unlock()
 	if op.Final {
+		c.mu.Unlock()
 		return nil
 	}
 	fs := checkOp(op, quiescent)
+	if quiescent && hasMissing(fs) {
+		// "something never arrived" rests on one observation of idleness: confirm it
+		// with further, later observations before it becomes a verdict (a reply that
+		// does arrive in between simply takes part in the check)
+		for i := 0; i < 3 && hasMissing(fs); i++ {
+			n := len(op.Replies)
+			c.mu.Unlock()
+			time.Sleep(time.Duration(5*(i+1)) * time.Millisecond)
+			_, idle := c.e.waitIdle()
+			c.mu.Lock()
+			if !idle {
+				quiescent = false
+			}
+			if len(op.Replies) != n {
+				c.e.b.Count("late_visible_replies", 1)
+				i = -1 // start over: observe again after the new reply
+			}
+			fs = checkOp(op, quiescent)
+		}
+	}
+	defer c.mu.Unlock()
 	op.Final = true
 	if i, ok := c.cur[op.ID]; ok && i == op.idx {
 		delete(c.cur, op.ID)
@@ -259,6 +280,15 @@ func (c *client) retire(op *opRec, quiescent bool) []finding {
 		op.Replies, op.Msgs = nil, nil
 	}
 	return fs
+}
+
+func hasMissing(fs []finding) bool {
+	for _, f := range fs {
+		if strings.Contains(f.Sig, ":missing-") {
+			return true
+		}
+	}
+	return false
 }
 
 // send journals the message and hands it to the API (client side of the boundary).
@@ -454,10 +484,11 @@ func (c *client) waitTerminal(op *opRec) bool {
 // goroutine introspection
 
 type gor struct {
-	ID     string
-	State  string
-	Frames []string // function names, innermost first
-	Text   string
+	ID      string
+	State   string
+	Frames  []string // function names, innermost first
+	Created string   // "created by" line
+	Text    string
 }
 
 var gorHead = regexp.MustCompile(`^goroutine (\d+) \[([^\]]*)\]:`)
@@ -484,7 +515,13 @@ func dumpGoroutines() []gor {
 		}
 		g := gor{ID: m[1], State: m[2], Text: blk}
 		for _, ln := range lines[1:] {
-			if ln == "" || ln[0] == '\t' || strings.HasPrefix(ln, "created by ") {
+			if strings.HasPrefix(ln, "created by ") {
+				// kept apart: it identifies whose goroutine this is even when the
+				// runtime cannot print its stack ("stack unavailable")
+				g.Created = strings.TrimPrefix(ln, "created by ")
+				continue
+			}
+			if ln == "" || ln[0] == '\t' {
 				continue
 			}
 			fn := ln
@@ -508,11 +545,13 @@ func handlerState(gs []gor) (parked int, active []gor) {
 	for _, g := range gs {
 		rel := false
 		first := ""
-		for _, f := range g.Frames {
-			if strings.Contains(f, apiRecv) || strings.Contains(f, ".queryExecutor") || strings.Contains(f, "main.(*seq).stepConcurrent.func") || strings.Contains(f, "main.(*seq).stepGated.func") {
+		for _, f := range append([]string{g.Created}, g.Frames...) {
+			if strings.Contains(f, apiRecv) || strings.Contains(f, ".queryExecutor") || strings.Contains(f, "database/storage/") && strings.Contains(f, ").Query") ||
+				strings.Contains(f, "main.(*seq).stepConcurrent.func") || strings.Contains(f, "main.(*seq).stepGated.func") ||
+				f == g.Created && (strings.Contains(f, "main.(*seq).stepConcurrent") || strings.Contains(f, "main.(*seq).stepGated")) {
 				rel = true
 			}
-			if first == "" && !strings.HasPrefix(f, "runtime.") {
+			if first == "" && f != "" && f != g.Created && !strings.HasPrefix(f, "runtime.") {
 				first = f
 			}
 		}
@@ -560,11 +599,11 @@ func portbaseGoroutines(gs []gor) map[string]gor {
 	for _, g := range gs {
 		pb := false
 		first := ""
-		for _, f := range g.Frames {
+		for _, f := range append([]string{g.Created}, g.Frames...) {
 			if strings.Contains(f, "safing/portbase/") {
 				pb = true
 			}
-			if first == "" && !strings.HasPrefix(f, "runtime.") {
+			if first == "" && f != "" && f != g.Created && !strings.HasPrefix(f, "runtime.") {
 				first = f
 			}
 		}
